@@ -337,7 +337,7 @@ func sortedKeysI64(m map[int64]struct{}) []int64 {
 }
 
 // ---------------------------------------------------------------------------------------------
-// F-4HQUERY: QueryService.ExecuteQuery replaces the key's timeframe by CandleDuration.QueryableTimeframe,
+// F-4H: QueryService.ExecuteQuery replaces the key's timeframe by CandleDuration.QueryableTimeframe,
 // which scans utils.Timeframes from the end for a divisor; the table lists "4H" before "2H", so a query on
 // a 4H bucket is redirected to the symbol's 2H bucket. queryDirect runs exactly what ExecuteQuery runs
 // after that rewrite (planner.Query.Parse, executor.NewReader, Reader.Read) on the unmodified key, so the
@@ -369,7 +369,7 @@ func queryDirect(in *ms.Inst, key string) (*ms.Table, error) {
 }
 
 // queryAllObserved runs the unrestricted query through QueryService.ExecuteQuery. When the timeframe is 4H
-// (trigger of F-4HQUERY) and the service reports "no files" although data was written, fourH is set and the
+// (trigger of F-4H) and the service reports "no files" although data was written, fourH is set and the
 // table is obtained through queryDirect instead.
 func queryAllObserved(in *ms.Inst, key, tfName string) (tbl *ms.Table, fourH bool, err error) {
 	tbl, err = in.QueryAll(key)
